@@ -292,11 +292,15 @@ class Verifier:
                 if gk.startswith('ghost_'):
                     ns_old[gk] = gv
             outcome = None
+            it.top_frames = []
             try:
                 result = it.run_body(c.fn, dict(bound))
                 outcome = 'return'
             except PyRaise as e:
                 outcome = e
+            # the locals of the verified activation at its exit, for clauses that take `frame`
+            if it.top_frames:
+                ns['frame'] = SObj(type('frame', (), {}), dict(it.top_frames[0].locals), frozen=True)
             if outcome == 'return':
                 res.exits['return'] = res.exits.get('return', 0) + 1
                 ns['result'] = result
